@@ -31,12 +31,47 @@ def repo_root() -> str:
     return os.environ.get("KVERIF_REPO", DEFAULT_ROOT)
 
 
+def _fold_return_locals(tree: ast.AST) -> int:
+    """Canonical form used by every rule: `x = E` immediately followed by `return x`, where x is bound and used
+    nowhere else in the function, is read as `return E` (an explaining variable before a return changes nothing, and
+    rules that look at what a function returns should not care).  Returns the number of folds."""
+    folds = 0
+    for fn in [n for n in ast.walk(tree) if isinstance(n, (ast.FunctionDef, ast.AsyncFunctionDef))]:
+        counts: Dict[str, int] = {}
+        declared = set()
+        for n in ast.walk(fn):
+            if isinstance(n, ast.Name):
+                counts[n.id] = counts.get(n.id, 0) + 1
+            elif isinstance(n, (ast.Global, ast.Nonlocal)):
+                declared.update(n.names)
+        for holder in ast.walk(fn):
+            for fld in ("body", "orelse", "finalbody"):
+                stmts = getattr(holder, fld, None)
+                if not (isinstance(stmts, list) and len(stmts) >= 2 and isinstance(stmts[0], ast.stmt)):
+                    continue
+                i = 0
+                while i < len(stmts) - 1:
+                    a, b = stmts[i], stmts[i + 1]
+                    if isinstance(a, ast.Assign) and len(a.targets) == 1 and isinstance(a.targets[0], ast.Name) \
+                            and isinstance(b, ast.Return) and isinstance(b.value, ast.Name) and b.value.id == a.targets[0].id \
+                            and counts.get(b.value.id) == 2 and b.value.id not in declared:
+                        new = ast.Return(value=a.value)
+                        ast.copy_location(new, a)
+                        new.end_lineno = getattr(b, "end_lineno", getattr(a, "end_lineno", None))
+                        stmts[i:i + 2] = [new]
+                        folds += 1
+                    else:
+                        i += 1
+    return folds
+
+
 class Module:
     def __init__(self, name: str, path: str, source: str):
         self.name = name
         self.path = path
         self.source = source
         self.tree = ast.parse(source, filename=path)
+        self.folded_returns = _fold_return_locals(self.tree)
         self.digest = hashlib.sha256(source.encode()).hexdigest()[:16]
         for node in ast.walk(self.tree):
             for child in ast.iter_child_nodes(node):
